@@ -30,6 +30,7 @@ type Config struct {
 	Workers       int
 	InitPrefixes  []string
 	redirects     map[string]*ssa.Function
+	StopAfterViol int // stop exploring an entry once this many violations were found (they are replayed next)
 	NoMerge       bool
 	NoEvalSkip    bool
 	MergeInts     bool
@@ -58,9 +59,13 @@ type Worker struct {
 	solver    *Solver
 	stats     WorkerStats
 	stubsUsed map[string]int
+	deadline  time.Time
 }
 
 func (w *Worker) check(asserts []*Term, wants []*Term) (string, []ModelVal) {
+	if !w.deadline.IsZero() && time.Now().After(w.deadline) {
+		return "unknown", nil // time budget of the entry exhausted: drain quickly, the run is reported inconclusive
+	}
 	return w.solver.Check(asserts, wants)
 }
 
@@ -99,6 +104,7 @@ type RunResult struct {
 	EvalSkips    int
 	MergeAborts  int
 	MaxPathsHit  bool
+	StoppedEarly bool
 	Traces       []*ThreadTrace
 	OvfSat       int
 }
@@ -174,7 +180,7 @@ func Explore(prog *ssa.Program, entry *ssa.Function, initFn []*ssa.Function, cfg
 				return
 			}
 			defer solver.Close()
-			w := &Worker{tb: tb, solver: solver, stubsUsed: map[string]int{}}
+			w := &Worker{tb: tb, solver: solver, stubsUsed: map[string]int{}, deadline: cfg.Deadline}
 			for {
 				prefix, ok := e.pop()
 				if !ok {
@@ -186,6 +192,10 @@ func Explore(prog *ssa.Program, entry *ssa.Function, initFn []*ssa.Function, cfg
 				stop := false
 				if cfg.MaxPaths > 0 && res.Paths >= cfg.MaxPaths {
 					res.MaxPathsHit = true
+					stop = true
+				}
+				if cfg.StopAfterViol > 0 && len(res.Violations) >= cfg.StopAfterViol {
+					res.StoppedEarly = true
 					stop = true
 				}
 				if !cfg.Deadline.IsZero() && time.Now().After(cfg.Deadline) {
